@@ -153,12 +153,28 @@ func runLive(p livePlan) (string, bool) {
 		}
 		reached = st.answered > 0
 	} else {
+		// the acceptor handshakes one peer at a time and the dialling side gives up after 1 s per
+		// message: while an earlier hostile peer holds the accept loop (up to 3 s) an honest dial fails.
+		// That head-of-line blocking is not what this check is about: retry on a fresh socket.
 		hs := handshake.Create(handshake.Options{})
-		conn.SetDeadline(time.Now().Add(30 * time.Second)) // the acceptor handshakes one peer at a time: earlier hostile peers may still hold it
-		_, err := hs.Start(hsFake{name, 1001}, conn, gen.HandshakeOptions{Cookie: liveCookie, Flags: gen.NetworkFlags{Enable: true, EnableImportantDelivery: true}})
-		if err != nil {
+		var herr error
+		for attempt := 0; attempt < 10; attempt++ {
+			if attempt > 0 {
+				conn.Close()
+				time.Sleep(500 * time.Millisecond)
+				if conn, err = net.DialTimeout("tcp", e.addr, 3*time.Second); err != nil {
+					return fmt.Sprintf("the victim node's acceptor does not accept TCP connections any more: %v", err), false
+				}
+			}
+			conn.SetDeadline(time.Now().Add(30 * time.Second))
+			_, herr = hs.Start(hsFake{name, 1001}, conn, gen.HandshakeOptions{Cookie: liveCookie, Flags: gen.NetworkFlags{Enable: true, EnableImportantDelivery: true}})
+			if herr == nil {
+				break
+			}
+		}
+		if herr != nil {
 			conn.Close()
-			return fmt.Sprintf("the victim node's acceptor refused an honest handshake: %v", err), false
+			return fmt.Sprintf("the victim node's acceptor refused 10 honest handshakes in a row: %v", herr), false
 		}
 		conn.SetDeadline(time.Time{})
 		reached = true
